@@ -70,7 +70,8 @@ pub fn stream_len(id: &str) -> usize {
     match id {
         "C13" | "C20" => 700,
         "C17" | "C18" => 800,
-        _ => 400,
+        // C09 / C10 / C14: the many-rules profile needs long streams
+        _ => 900,
     }
 }
 
